@@ -12,9 +12,9 @@
    for mkdir, a failure can only come from an existing non-directory prefix, before anything was created). chown without
    follow refines the reference chown (Memfs/RefineChown.v). Memfs/RefineHistory.v puts the calls together: a reference
    filesystem working on the flat tree alone (it resolves its own path arguments against the tree's working directory), and
-   the theorem that from every well-formed kind-sound state - the fresh filesystem in particular - ANY history of mkfile,
-   mkdir_p, mkdir_m, write_all, append_all, read_all, remove, remove_all (off the root), symlink, set_cwd, chown without
-   follow, exists / is_dir / is_file / is_symlink and cwd gives call by call exactly the reference's value or error kind and
+   the theorem that from every well-formed kind-sound state - the fresh filesystem in particular - ANY history of
+   mkfile, mkdir_p, mkdir_m, write_all, write_lines, append_all, append_line, append_lines, read_all, read_lines, remove, remove_all (off the root), symlink, readlink, readlink_abs, set_cwd, cwd, abs, chown without follow, exists / is_dir / is_file / is_symlink / is_symlink_dir / is_exec / is_readonly, mode / owner / uid / gid
+   gives call by call exactly the reference's value or error kind and
    ends in exactly the reference's tree. PARTIAL: copy, chmod and chown with follow are compared with the real code state-for-state
    and judged on pre/post snapshots, and proved safe (no panic, well formed, kind-sound), but their reference-level
    specification is not yet a theorem. *)
